@@ -845,6 +845,19 @@ func (fc *FCtx) checkInvs(kind string, ord int, ls *LoopSpec, st *State, sp loop
 		name := fmt.Sprintf("%s#loop%d.%d", kind, ord, i)
 		fc.obligeNamed(st, name, kind, t, "loop "+fmt.Sprint(ord)+": invariant "+inv.Src, pos)
 	}
+	if kind == "inv-preserve" {
+		// `each` clauses: what one iteration achieves for its own element, stated over the state at the end of the
+		// iteration (the loop variables of that iteration are in scope)
+		for i, c := range ls.Each {
+			env := fc.newEnv(st, fc.entry, pos)
+			env.specials = sp
+			t, ok := fc.clauseBool(c, env)
+			if !ok {
+				t = "false"
+			}
+			fc.obligeNamed(st, fmt.Sprintf("each#loop%d.%d", ord, i), "assert", t, "loop "+fmt.Sprint(ord)+": each "+c.Src, pos)
+		}
+	}
 }
 
 func (fc *FCtx) assumeInvs(ord int, ls *LoopSpec, st *State, sp loopSpecials, pos token.Pos) {
@@ -972,6 +985,7 @@ func (fc *FCtx) execFor(s *ast.ForStmt, st *State, label string) *Flow {
 		x.assume(not(cond))
 		out.normal = append(out.normal, x)
 	}
+	fc.checkExhaustive(ord, ls, fb, x, label, bodyPos)
 	out.normal = append(out.normal, fb.brk[""]...)
 	delete(fb.brk, "")
 	if label != "" {
@@ -1181,6 +1195,7 @@ func (fc *FCtx) execRange(s *ast.RangeStmt, st *State, label string) *Flow {
 		x.assume(fmt.Sprintf("(forall ((%s %s)) (= (select %s %s) (select %s %s)))", qk, coll.S.Key.Name, visHead, qk, mpDom(coll), qk))
 	}
 	out.normal = append(out.normal, x)
+	fc.checkExhaustive(ord, ls, fb, x, label, bodyPos)
 	out.normal = append(out.normal, fb.brk[""]...)
 	delete(fb.brk, "")
 	if label != "" {
@@ -1189,6 +1204,33 @@ func (fc *FCtx) execRange(s *ast.RangeStmt, st *State, label string) *Flow {
 	}
 	out.absorb(fb)
 	return out
+}
+
+// checkExhaustive: `loop N: exhaustive` - one element that is skipped must not end the visit of the others: every break
+// out of the loop must be unreachable. x is the state of the normal exit.
+func (fc *FCtx) checkExhaustive(ord int, ls *LoopSpec, fb *Flow, x *State, label string, bodyPos token.Pos) {
+	if ls == nil || !ls.Exhaustive {
+		return
+	}
+	k := 0
+	labels := []string{""}
+	if label != "" {
+		labels = append(labels, label)
+	}
+	for _, l := range labels {
+		for _, b := range fb.brk[l] {
+			name := fmt.Sprintf("exhaustive#loop%d", ord)
+			if k > 0 {
+				name += fmt.Sprintf(".%d", k)
+			}
+			fc.obligeNamed(b, name, "assert", "false", "loop "+fmt.Sprint(ord)+" visits every element: this break is reachable", bodyPos)
+			k++
+		}
+	}
+	if k == 0 && x != nil {
+		// no break in the body: discharged on the spot, and on record - a break added later fails THIS obligation
+		fc.obligeNamed(x, fmt.Sprintf("exhaustive#loop%d", ord), "assert", "true", "loop "+fmt.Sprint(ord)+" visits every element: the body has no break", bodyPos)
+	}
 }
 
 func elemType(t types.Type) types.Type {
